@@ -199,6 +199,26 @@ def run(ctx):
             seen.add(k)
             behaviours.append(b)
             kept += 1
+    directed = 0
+    if thorough:
+        # directed histories: every history of <= 7 steps on which the model of the code as found diverges
+        # (TLC, Variant = "found"), stratified by shape; the prediction stays the intended one
+        g = ctx.tlc("mc/MC_DepHash.tla", "mc/DepHash_foundcx.cfg", workers=4, deadlock=False, timeout=3000, count=False)
+        cx = b_json(g)
+        if g.rc != 0 or not cx:
+            raise Broken("directed generation failed (rc=%s):\n%s" % (g.rc, g.out[-1500:]))
+        per = {}
+        for b in sorted(cx, key=lambda b: json.dumps(b, sort_keys=True)):
+            cls = (shape(b, len(b["steps"]) - 1), len(b["steps"]), sum(1 for t in b["steps"] if t["a"] == "build"))
+            k = json.dumps(b, sort_keys=True)
+            if k in seen or per.get(cls, 0) >= 4:
+                continue
+            per[cls] = per.get(cls, 0) + 1
+            seen.add(k)
+            behaviours.append(b)
+            directed += 1
+        ctx.cov["directed_histories_from_found_model"] = directed
+        ctx.cov["directed_classes"] = len(per)
     exe, lib = ctx.build_harness("dephash_replay", ["dephash_replay.cpp"], variant="fast")
     env = ctx.occa_env(lib)
     env["DEPHASH_TIMEOUT"] = "300"
